@@ -297,7 +297,7 @@ def run(ck, ctx):
         msk = {}
         for n in walk([r2.value]):
             if n.op == "Subscript" and is_basic_index(n.args[1]) is False and n.fn is not None and \
-                    n.fn.qualname.startswith("RadioEFieldParams."):
+                    n.fn.module.name.endswith(".radio") and not n.fn.qualname.startswith(("EASRadio.", "IonosphereParams.")):
                 m_ = n.args[1]
                 if any(x.op == "Compare" for x in walk([m_])):
                     msk.setdefault(g.vn(m_), m_)
@@ -305,7 +305,7 @@ def run(ck, ctx):
         # for an all-False array it is 0, which silently selects the wrong (often empty) range
         for n in walk([r2.value]):
             if is_ext_call(n, "numpy.argmax", "numpy.argmin") and len(n.args) >= 2 and \
-                    n.fn is not None and n.fn.qualname.startswith("RadioEFieldParams."):
+                    n.fn is not None and n.fn.module.name.endswith(".radio"):
                 a0 = n.args[1]
                 if a0.op in ("Compare", "BoolOp") or (a0.op == "BinOp" and a0.attr in ("BitAnd", "BitOr", "BitXor")) or \
                         (a0.op == "UnaryOp" and a0.attr in ("Invert", "Not")):
